@@ -2,6 +2,7 @@ SPECIFICATION Spec
 CONSTANTS
   MaxOps = 1
   EmitCases = TRUE
+  WithMany = TRUE
 INVARIANT Agree
 INVARIANT Emit
 CHECK_DEADLOCK FALSE
